@@ -3311,59 +3311,31 @@ class sptensor:
 
         # Two sparse tensors
         if isinstance(other, ttb.sptensor):
-            # Find where their zeros are
-            if self.subs.size == 0:
-                SelfZeroSubs = self.allsubs()
-            else:
-                SelfZeroSubsIdx = tt_setdiff_rows(self.allsubs(), self.subs)
-                SelfZeroSubs = self.allsubs()[SelfZeroSubsIdx]
-            if other.subs.size == 0:
-                OtherZeroSubs = other.allsubs()
-            else:
-                OtherZeroSubsIdx = tt_setdiff_rows(other.allsubs(), other.subs)
-                OtherZeroSubs = other.allsubs()[OtherZeroSubsIdx]
+            # Stored entries of self: x / y, with y = 0 where other has no entry
+            # (x / 0 is +-inf)
+            common, idxOther = tt_ismember_rows(self.subs, other.subs)
+            denominator = np.zeros(self.vals.shape)
+            denominator[common] = other.vals[idxOther[common]]
+            with np.errstate(divide="ignore", invalid="ignore"):
+                newvals = self.vals / denominator
 
-            # Both nonzero
-            if self.subs.size > 0 and other.subs.size > 0:
-                idxSelf = tt_intersect_rows(self.subs, other.subs)
-                idxOther = tt_intersect_rows(other.subs, self.subs)
-                newsubs = self.subs[idxSelf, :]
-                newvals = self.vals[idxSelf] / other.vals[idxOther]
-            else:
-                newsubs = np.empty((0, len(self.shape)))
-                newvals = np.empty((0, 1))
-
-            # Self nonzero and other zero
-            if self.subs.size > 0:
-                moresubs = tt_intersect_rows(self.subs, OtherZeroSubs)
-                morevals = np.empty((moresubs.shape[0], 1))
-                morevals.fill(np.nan)
-                if moresubs.size > 0:
-                    newsubs = np.vstack((newsubs, SelfZeroSubs[moresubs, :]))
-                    newvals = np.vstack((newvals, morevals))
-
-            # other nonzero and self zero
-            if other.subs.size > 0:
-                moresubs = tt_intersect_rows(other.subs, SelfZeroSubs)
-                morevals = np.empty((moresubs.shape[0], 1))
-                morevals.fill(0)
-                if moresubs.size > 0:
-                    newsubs = np.vstack((newsubs, OtherZeroSubs[moresubs, :]))
-                    newvals = np.vstack((newvals, morevals))
-
-            # Both zero
-            moresubs = tt_intersect_rows(SelfZeroSubs, OtherZeroSubs)
-            morevals = np.empty((SelfZeroSubs[moresubs, :].shape[0], 1))
-            morevals.fill(np.nan)
-            if moresubs.size > 0:
-                newsubs = np.vstack((newsubs, SelfZeroSubs[moresubs, :]))
-                newvals = np.vstack((newvals, morevals))
-
+            # Both zero: 0 / 0 is NaN (self zero and other nonzero is 0, not stored)
+            allsubs = self.allsubs()
+            bothzero = allsubs[
+                tt_setdiff_rows(allsubs, np.vstack((self.subs, other.subs)))
+            ]
+            newsubs = np.vstack((self.subs, bothzero))
+            newvals = np.vstack((newvals, np.nan * np.ones((bothzero.shape[0], 1))))
             return ttb.sptensor(newsubs, newvals, self.shape)
 
         if isinstance(other, ttb.tensor):
-            csubs = self.subs
-            cvals = self.vals / np.atleast_1d(other[csubs])[:, None]
+            with np.errstate(divide="ignore", invalid="ignore"):
+                cvals = self.vals / np.atleast_1d(other[self.subs])[:, None]
+            # 0 / 0 is NaN where neither operand has a nonzero
+            bothzero, _ = (other == 0).find()
+            bothzero = bothzero[tt_setdiff_rows(bothzero, self.subs)]
+            csubs = np.vstack((self.subs, bothzero))
+            cvals = np.vstack((cvals, np.nan * np.ones((bothzero.shape[0], 1))))
             return ttb.sptensor(csubs, cvals, self.shape)
         if isinstance(other, ttb.ktensor):
             # TODO consider removing epsilon and generating nans consistent with above
